@@ -416,6 +416,52 @@ def run_ble_reassembly(ctx, response_items, pieces: int, negotiated: int, reques
         ctx.violation("ble-reassembly-write-count", f"{len(state['acks'])} writes for {n} pieces", replay)
 
 
+def run_ble_reassembly_concurrent(ctx, k: int) -> None:
+    """Two accessories are being paired at the same time (two BLE links, two tasks): each exchange reassembles the reply ITS
+    accessory sent, whatever the other one is doing between its radio round trips."""
+    from aiohomekit.controller.ble import client as ble_client
+    from vf.sim_ble import FakeGattClient, FakeHandle, GattEndpointSim
+
+    rng = ctx.grng("C15.ble-concurrent", k)
+    n_tasks = rng.choice([2, 2, 3])
+    jobs = []
+    for j in range(n_tasks):
+        plain = [(6, bytes([2 + 2 * j])), (3, bytes(rng.randrange(256) for _ in range(rng.choice([32, 384, 600])))), (2, bytes(rng.randrange(256) for _ in range(16)))]
+        payload = ref.encode(plain)
+        pieces = rng.choice([1, 2, 3, 5, 9])
+        n = max(1, min(pieces, len(payload)))
+        size = len(payload) // n
+        chunks = [payload[i * size : (i + 1) * size] for i in range(n - 1)] + [payload[(n - 1) * size :]]
+        state = {"i": 0}
+
+        def responder(opcode, tid, iid, body, chunks=chunks, n=n, payload=payload, state=state):
+            i = state["i"]
+            state["i"] += 1
+            inner = payload if n == 1 else ref.encode([(12 if i < n - 1 else 13, chunks[i])])
+            return 0, ref.encode([(1, inner)]), None, None
+
+        handle = FakeHandle("0000004C-0000-1000-8000-0026BB765291", 10)
+        client = FakeGattClient(rng.choice([23, 64, 200]), address=f"AA:BB:CC:DD:EE:0{j}")
+        client.cooperative = True
+        client.endpoints[handle] = GattEndpointSim(responder)
+        jobs.append((client, handle, plain, n))
+    ctx.case("D-concurrent", k, sample={"part": "ble-reassembly, concurrent exchanges", "exchanges": [(len(ref.encode(p)), n) for _, _, p, n in jobs]}, kind="D-concurrent")
+    replay = {"part": "D-concurrent", "k": k}
+
+    async def go():
+        return await asyncio.gather(*[ble_client._pairing_char_write(c, h, 11, [(6, b"\x01"), (0, b"\x00")]) for c, h, _, _ in jobs], return_exceptions=True)
+
+    results = asyncio.run(go())
+    for (c, h, plain, n), got in zip(jobs, results):
+        if isinstance(got, BaseException):
+            ctx.violation(f"ble-reassembly-raises-{type(got).__name__}", f"{len(jobs)} exchanges at the same time ({[x[3] for x in jobs]} pieces): {got!r}", replay)
+            return
+        if {int(t): bytes(v) for t, v in got.items()} != dict(plain):
+            ctx.violation("ble-reassembly-mismatch", f"{len(jobs)} exchanges at the same time ({[x[3] for x in jobs]} pieces): one of them got {[(int(t), len(v)) for t, v in got.items()]}, its accessory sent {[(t, len(v)) for t, v in plain]}", replay)
+            return
+    ctx.count("ble_reassembly_concurrent_exchanges", len(jobs))
+
+
 def gen_ble(ctx):
     rng = ctx.rng("D")
     m2_setup = [(6, b"\x02"), (3, _pattern(384, 1)), (2, _pattern(16, 2))]
@@ -454,6 +500,9 @@ def run(ctx) -> None:
         check_filter(ctx, items, expected, origin)
     for resp, pieces, negotiated, request, empty_last, abort_after in gen_ble(ctx):
         run_ble_reassembly(ctx, resp, pieces, negotiated, request, empty_last, abort_after)
+    for k in range(ctx.pick(40, 600)):
+        if ctx.mine(k):
+            run_ble_reassembly_concurrent(ctx, k)
 
 
 def replay(ctx, d) -> None:
@@ -464,5 +513,7 @@ def replay(ctx, d) -> None:
         check_totality(ctx, d["data"], d["fn"], "replay")
     elif part == "C":
         check_filter(ctx, [tuple(x) for x in d["items"]], d["expected"], "replay")
+    elif part == "D-concurrent":
+        run_ble_reassembly_concurrent(ctx, d["k"])
     elif part == "D":
         run_ble_reassembly(ctx, [tuple(x) for x in d["items"]], d["pieces"], d["negotiated"], [tuple(x) for x in d["request"]], d.get("empty_last", False), d.get("abort_after"))
